@@ -471,7 +471,7 @@ def r9_chunk_partition(ctx):
             lo, hi = rows.slice.lower, rows.slice.upper
             names = [u(e) for e in (tgt.elts if isinstance(tgt, ast.Tuple) else [tgt])]
             key_ok = isinstance(kexp, ast.Call) and len(kexp.args) == 1 and isinstance(kexp.args[0], ast.Subscript) and lo is not None and u(kexp.args[0].slice) == u(lo)
-            ctx.ob(f.where, "a group is labelled with the key of its own first row", key_ok, u(kexp), key="C12-R9|group-key")
+            ctx.ob(f.where, "a group is labelled with the key of its own first row", key_ok, u(kexp), key="C12-R9|group-key", definite=True)
             if hi is None:
                 cover = isinstance(dom, (ast.List, ast.Tuple)) and [u(e) for e in dom.elts] == ["0"] and names == [u(lo)]
             else:
@@ -482,7 +482,7 @@ def r9_chunk_partition(ctx):
                 for x in chs:
                     e2["changes"] = inline_locals(x.value, e2)
                 cover = sym.canon(inline_locals(dom, e2)) == want and names == [u(lo), u(hi)]
-            ctx.ob(f.where, "the groups of a chunk start at row 0, follow each other without gap, and end at the chunk's last row", cover, u(dom)[:100], key="C12-R9|cover")
+            ctx.ob(f.where, "the groups of a chunk start at row 0, follow each other without gap, and end at the chunk's last row", cover, u(dom)[:100], key="C12-R9|cover", definite=True)
         elif u(rows) == data:
             # the whole chunk as ONE group: right only if exactly one group comes out whenever the chunk has a row
             one = u(dom) in ("keys[:1]", "keys[0:1]", "[keys[0]]", "(keys[0],)")
@@ -490,7 +490,7 @@ def r9_chunk_partition(ctx):
             if not one and not none_:
                 raise Unrecognised(f"{f.where}: whole-chunk group over `{u(dom)}`")
             ctx.ob(f.where, "a chunk returned as one group yields exactly one group whenever it has a row (a one-row chunk is a group, not nothing)", one, u(ge)[:100],
-                   key="C12-R9|single-group")
+                   key="C12-R9|single-group", definite=True)
         else:
             raise Unrecognised(f"{f.where}: group rows `{u(rows)}`")
     ctx.floor("returns of groupby", n, 2)
@@ -511,7 +511,7 @@ def r9_chunk_partition(ctx):
         else:
             raise Unrecognised(f"{m.where}: a table is wrapped as `{u(a)[:80]}`")
         ctx.ob(m.where, "a whole table given to a MultiStream becomes a one-chunk stream (at most the empty table is dropped: a one-row table is data)", ok, u(a)[:100],
-               key="C12-R9|table-wrap")
+               key="C12-R9|table-wrap", definite=True)
 
 
 RULES = [
